@@ -93,6 +93,7 @@ type rgroup struct {
 	obj  bool
 	idxs []int
 	typ  reflect.Type
+	tree []pnode // fields of the object, in order (objects only)
 }
 
 type layout struct {
@@ -287,7 +288,7 @@ func newLayout(fn *cat.Fn) (*layout, error) {
 		if resultNeedsAs(r) {
 			return nil, fmt.Errorf("As on a multi-result function is not a valid catalog entry")
 		}
-		if r.O == 0 && resultTag(fn.Kind, r) == "" {
+		if r.O == 0 && resultTag(fn.Kind, r) == "" && !fn.Enc.RNest {
 			l.rs = append(l.rs, rgroup{idxs: []int{i}, typ: resultType(fn.Kind, r)})
 			i++
 			continue
@@ -297,6 +298,9 @@ func newLayout(fn *cat.Fn) (*layout, error) {
 			for j < len(fn.Rs) && fn.Rs[j].O == r.O {
 				j++
 			}
+		}
+		if fn.Enc.RNest {
+			j = len(fn.Rs) // one result object for everything, nested below
 		}
 		var fields []reflect.StructField
 		var idxs []int
@@ -308,7 +312,22 @@ func newLayout(fn *cat.Fn) (*layout, error) {
 			})
 			idxs = append(idxs, x)
 		}
-		l.rs = append(l.rs, rgroup{obj: true, idxs: idxs, typ: outStruct(fields)})
+		var tree []pnode
+		for _, x := range idxs {
+			tree = append(tree, pnode{idx: x})
+		}
+		if fn.Enc.RNest {
+			// all fields but the first move into a nested result object (a single field is
+			// wrapped): dig.Out structs may hold dig.Out structs
+			cut := 1
+			if len(fields) == 1 {
+				cut = 0
+			}
+			inner := outStruct(fields[cut:])
+			fields = append(append([]reflect.StructField(nil), fields[:cut]...), reflect.StructField{Name: fmt.Sprintf("N%d", i), Type: inner})
+			tree = append(append([]pnode(nil), tree[:cut]...), pnode{idx: -1, kids: tree[cut:]})
+		}
+		l.rs = append(l.rs, rgroup{obj: true, idxs: idxs, typ: outStruct(fields), tree: tree})
 		i = j
 	}
 	return l, nil
@@ -400,9 +419,17 @@ func (l *layout) make(id string, n int, zero bool) []reflect.Value {
 			continue
 		}
 		sv := reflect.New(g.typ).Elem()
-		for fi, idx := range g.idxs {
-			sv.Field(fi + 1).Set(mk(idx, g.typ.Field(fi+1).Type))
+		var fill func(v reflect.Value, tree []pnode)
+		fill = func(v reflect.Value, tree []pnode) {
+			for fi, nd := range tree {
+				if nd.idx >= 0 {
+					v.Field(fi + 1).Set(mk(nd.idx, v.Type().Field(fi+1).Type))
+				} else {
+					fill(v.Field(fi+1), nd.kids)
+				}
+			}
 		}
+		fill(sv, g.tree)
 		outs = append(outs, sv)
 	}
 	if l.hasErr && !l.errFirst {
